@@ -63,6 +63,19 @@ def reprOfName (s : String) : Option (Option ReprTy) :=
   | "i64" => some (some .i64) | "isize" => some (some .isize)
   | _ => none
 
+def hintOfName (s : String) : ReprHint :=
+  match reprOfName s with
+  | some (some t) => .int t
+  | _ =>
+    if s = "C" then .c
+    else if s = "packed" then .packed
+    else if s.startsWith "align" then .align ((s.drop 5).toString.toNat?.getD 0)
+    else .other
+
+/-- `reprattrs=C+u8/align4`: attributes separated by `/`, hints by `+`; `-` = none -/
+def decodeReprAttrs (s : String) : List (List ReprHint) :=
+  if s = "-" then [] else (s.splitOn "/").map (fun a => (a.splitOn "+").map hintOfName)
+
 def decodeInt (s : String) : Option Int := s.toInt?
 
 def decodeOptInt (s : String) : Option (Option Int) :=
@@ -78,6 +91,7 @@ def decodeFields (s : String) : Option Fields :=
   match s.splitOn ":" with
   | ["unit"] => some .unit
   | ["tuple", n] => n.toNat?.map .tuple
+  | ["named", ""] => some (.named [])   -- `V {}`
   | ["named", fs] => ((fs.splitOn ",").mapM decodeField).map .named
   | _ => none
 
@@ -108,7 +122,10 @@ def decodeEnum (toks : List String) : Option EnumDef := do
     | some s => s.toNat?.getD 0
     | none => 0
   pure { name := name, style := style, ci := ci, pfx := pfx, usePhf := phf, customErr := err,
-         repr := repr, constIntoStr := cis, variants := [], discName := dname, discVis := dvis }
+         reprAttrs := (match kv toks "reprattrs" with
+           | some s => if s = "-" then (match repr with | none => [] | some t => [[.int t]]) else decodeReprAttrs s
+           | none => match repr with | none => [] | some t => [[.int t]]),
+         constIntoStr := cis, variants := [], discName := dname, discVis := dvis }
 
 def decodeVariant (toks : List String) : Option Variant := do
   let ident ← decodeStr (← kv toks "ident")
